@@ -65,7 +65,7 @@ structure FileOK (m : Model) (e : Enc) (ln : Kind → Vals → Bytes) (f : File 
   ctlType : (f.control.s "recordType").isEmpty = false
   cashLetters : ∀ cl ∈ f.cashLetters, CashLetterOK m e ln cl
 
-theorem minLen_of_kind (l : Bytes) (k : Kind) (h : kindOfLine l = some k) (hk : k ≠ .cdAddB ∧ k ≠ .rdAddC) : minLen l = 80 := by
+theorem minLen_of_kind (m : Model) (e : Enc) (l : Bytes) (k : Kind) (h : kindOfLine l = some k) (hk : k ≠ .cdAddB ∧ k ≠ .rdAddC) : minLen m e l = 80 := by
   unfold minLen
   rw [h]
   cases k <;> simp_all
@@ -78,7 +78,7 @@ theorem C01_reassemble (m : Model) (e : Enc) (ln : Kind → Vals → Bytes) (f :
       s.headerUntouched = false ∧ (s.control.s "recordType").isEmpty = false ∧ s.cur.header.isSome = false := by
   unfold fileLines
   -- file header
-  have hmin1 := minLen_of_kind _ _ h.hdrKind (by simp)
+  have hmin1 := minLen_of_kind m e _ _ h.hdrKind (by simp)
   have hp1 := h.hdrParse
   unfold parseValidate at hp1
   let s0 := initState m
@@ -112,7 +112,7 @@ theorem C01_reassemble (m : Model) (e : Enc) (ln : Kind → Vals → Bytes) (f :
   obtain ⟨s3, hr3, hc3, hh3, hctl3, hu3⟩ := readLines_of_runs m e _ _ s2 (by rw [hcore0]; exact hruns)
   simp only [List.nil_append] at hc3
   -- file control
-  have hmin2 := minLen_of_kind _ _ h.ctlKind (by simp)
+  have hmin2 := minLen_of_kind m e _ _ h.ctlKind (by simp)
   have hp2 := h.ctlParse
   unfold parseValidate at hp2
   let s4 : RState := { s3 with lineNum := s3.lineNum + 1 }
@@ -152,7 +152,7 @@ theorem C01_reassemble (m : Model) (e : Enc) (ln : Kind → Vals → Bytes) (f :
   · rw [readLines_append, readLines_append]
     have l1 : readLines m e [ln .fileHeader f.header] (initState m) = (s2, none) := by
       simp only [readLines]
-      have : ¬ (ln .fileHeader f.header).length < minLen (ln .fileHeader f.header) := by
+      have : ¬ (ln .fileHeader f.header).length < minLen m e (ln .fileHeader f.header) := by
         rw [hmin1]; have := h.hdrLen; omega
       simp only [this, if_false]
       show (match rstep m e s1 (ln .fileHeader f.header) with
@@ -163,7 +163,7 @@ theorem C01_reassemble (m : Model) (e : Enc) (ln : Kind → Vals → Bytes) (f :
     simp only
     rw [hr3]
     simp only [readLines]
-    have : ¬ (ln .fileControl f.control).length < minLen (ln .fileControl f.control) := by
+    have : ¬ (ln .fileControl f.control).length < minLen m e (ln .fileControl f.control) := by
       rw [hmin2]; have := h.ctlLen; omega
     simp only [this, if_false]
     show (match rstep m e s4 (ln .fileControl f.control) with
